@@ -22,7 +22,7 @@ ASSUMPTIONS = [
 ]
 MIN_DECIDING = {"unchanged_judged": 50, "mutated_judged": 50, "mutated_at_root": 10}
 
-MUT = ["content", "rename_file", "rename_dir", "add_file", "add_dir", "remove_file", "remove_dir"]
+MUT = ["content", "rename_file", "rename_dir", "add_file", "add_dir", "remove_file", "remove_dir", "rename_equiv"]
 
 
 def budget(tier):
@@ -44,6 +44,10 @@ def run_case(cs):
         tree["f-" + world.gen_name(rng, "plain")] = world.gen_bytes(rng, 9)
     else:
         tree = world.gen_tree(rng, max_files=8, max_dirs=4, min_files=1)
+    if rng.random() < 0.3:
+        # names whose canonically equivalent spelling is a different byte string
+        par = rng.choice([""] + [k + "/" for k, v in tree.items() if v is None])
+        tree[par + rng.choice(["Cafe\u0301.mov", "Caf\u00e9.mov", "nin\u0303o.wav"])] = rng.randbytes(6)
     d = cs.dir()
     root = os.path.join(d, world.root_name(rng))
     world.write_tree(root, tree)
@@ -172,6 +176,15 @@ def run_case(cs):
         where = pick(dirs)
         if where:
             os.rename(os.path.join(work, where), os.path.join(work, where + "-renamed"))
+    elif kind == "rename_equiv":
+        import unicodedata
+
+        cand = [x for x in files + dirs if unicodedata.normalize("NFC", os.path.basename(x)) != unicodedata.normalize("NFD", os.path.basename(x))]
+        where = pick(cand) if cand else None
+        if where:
+            b = os.path.basename(where)
+            nb = unicodedata.normalize("NFC", b) if unicodedata.normalize("NFC", b) != b else unicodedata.normalize("NFD", b)
+            os.rename(os.path.join(work, where), os.path.join(work, os.path.dirname(where), nb))
     elif kind == "remove_file":
         where = pick(files)
         if where:
